@@ -218,8 +218,61 @@ fn script_with(c: &ReaderCase) -> ReaderScript {
     }
 }
 
+/// Some(big_endian) when the input starts with a UTF-16 byte-order mark
+pub fn utf16_kind(data: &[u8]) -> Option<bool> {
+    match data {
+        [0xFF, 0xFE, ..] => Some(false),
+        [0xFE, 0xFF, ..] => Some(true),
+        _ => None,
+    }
+}
+
+fn utf16_unit(data: &[u8], at: usize, be: bool) -> u16 {
+    if be { u16::from_be_bytes([data[at], data[at + 1]]) } else { u16::from_le_bytes([data[at], data[at + 1]]) }
+}
+
+/// Is offset `k` a character boundary of the input (UTF-8, or UTF-16 when it starts with that BOM)?
 fn char_boundary(data: &[u8], k: usize) -> bool {
+    if let Some(be) = utf16_kind(data) {
+        if k >= data.len() || k <= 2 {
+            return true; // (a cut inside the 2-byte mark leaves no UTF-16 input at all: not asserted)
+        }
+        if (k - 2) % 2 != 0 {
+            return false;
+        }
+        // between the two halves of a surrogate pair?
+        let prev = utf16_unit(data, k - 2, be);
+        return !(0xD800..0xDC00).contains(&prev);
+    }
     k >= data.len() || (data[k] & 0xC0) != 0x80
+}
+
+/// The first `k` bytes as text, when they are complete characters of the input's encoding
+fn decode_prefix(data: &[u8], k: usize) -> Option<String> {
+    if let Some(be) = utf16_kind(data) {
+        if k < 2 || (k - 2) % 2 != 0 {
+            return None;
+        }
+        let units: Vec<u16> = (2..k).step_by(2).map(|i| utf16_unit(data, i, be)).collect();
+        return String::from_utf16(&units).ok();
+    }
+    std::str::from_utf8(&data[..k]).ok().map(|s| s.to_string())
+}
+
+/// `text` re-encoded as UTF-16 with a byte-order mark, and the map from UTF-8 offsets to offsets in it
+pub fn to_utf16(text: &str, be: bool) -> (Vec<u8>, impl Fn(usize) -> usize + '_) {
+    let mut v = if be { vec![0xFE, 0xFF] } else { vec![0xFF, 0xFE] };
+    for u in text.encode_utf16() {
+        v.extend_from_slice(&if be { u.to_be_bytes() } else { u.to_le_bytes() });
+    }
+    let map = move |off: usize| -> usize {
+        let mut o = off.min(text.len());
+        while !text.is_char_boundary(o) {
+            o -= 1;
+        }
+        2 + 2 * text[..o].encode_utf16().count()
+    };
+    (v, map)
 }
 
 fn note_run(st: &mut Stats, r: &RRes, nontrivial: bool) {
@@ -594,6 +647,9 @@ fn one_eof(
     let r = run_entry(c, bytes, &c.opts, &script);
     st.schedules.insert(script.digest());
     let has_bom = bytes.starts_with(&[0xEF, 0xBB, 0xBF]);
+    if utf16_kind(bytes).is_some() {
+        st.bump("utf16.eof_points");
+    }
     if !char_boundary(bytes, k) && !(has_bom && k < 3) {
         note_run(st, &r, true);
         st.bump("fired.eof_mid_char");
@@ -603,7 +659,8 @@ fn one_eof(
         st.bump("control.eof_at_boundary");
         // control: same as the in-memory parse of the prefix (single-document entry points, non-validating)
         if let (Some(o), false) = (&r.single, c.entry.is_validating()) {
-            if let Ok(prefix) = std::str::from_utf8(&bytes[..k]) {
+            if let Some(prefix) = decode_prefix(bytes, k) {
+                let prefix = prefix.as_str();
                 let m = crate::with_target!(c.target, mem_ref(prefix, &c.opts));
                 let agree = match (o, &m) {
                     (Outcome::Ok(a), Outcome::Ok(b)) => a == b,
@@ -673,7 +730,11 @@ fn one_cap(
     }
     let script = script_with(c);
     let r = run_entry(c, bytes, &opts, &script);
-    let has_bom = bytes.starts_with(&[0xEF, 0xBB, 0xBF]);
+    // (UTF-16 input is charged by its raw bytes, mark included: exact, except for a mark-only input)
+    let has_bom = bytes.starts_with(&[0xEF, 0xBB, 0xBF]) || (utf16_kind(bytes).is_some() && l <= 2);
+    if utf16_kind(bytes).is_some() {
+        st.bump("utf16.caps");
+    }
     let below = cap.map(|x| x < l).unwrap_or(false);
     note_run(st, &r, below);
     st.bump(match cap {
@@ -1361,7 +1422,7 @@ impl Plan {
 
 pub fn total(tier: Tier) -> u64 {
     match tier {
-        Tier::Quick => 5400,
+        Tier::Quick => 6100,
         Tier::Thorough => 40_000,
     }
 }
@@ -1418,6 +1479,60 @@ pub fn gen_case(plan: &Plan, tier: Tier, seed: u64, idx: u64) -> Case {
             entry,
             opts: OptVec::default(),
             chunking: [Chunking::Fixed(1), Chunking::Whole, Chunking::Fixed(3)][w % 3].clone(),
+            sel,
+        });
+    }
+    // systematic block for UTF-16 input (goes through the transcoding decoder): documents re-encoded
+    // little- and big-endian x 2 entry points x 4 sweeps
+    const U16_DOCS: [&str; 8] = [
+        "a: 1\n",
+        "key: café 😀\n",
+        "- a\n- 😀",
+        "name: héllo\nn: 7\nlist: [1, 2, 3]\n",
+        "k: \"q\\u00e9 日本語\"\n",
+        "a: 1\n---\nb: é\n---\nc: 😀😀\n",
+        "x: &a [1, 2]\ny: *a\n",
+        "t: |\n  line é\n  𝄞 clef\n",
+    ];
+    let ustart = ncorp * 8 * 4 + vslots;
+    let uslots = (U16_DOCS.len() * 2 * 2 * 4) as u64;
+    if slot >= ustart && slot < ustart + uslots {
+        let w = (slot - ustart) as usize;
+        let text = U16_DOCS[w % U16_DOCS.len()];
+        let be = (w / U16_DOCS.len()) % 2 == 1;
+        let entry = [REntry::FromReader, REntry::Read][(w / (U16_DOCS.len() * 2)) % 2];
+        let sel = match w / (U16_DOCS.len() * 4) {
+            0 => Sel::SweepEof,
+            1 => Sel::SweepFaults {
+                kinds: vec![ErrKind::Other, ErrKind::UnexpectedEof],
+                afters: all_afters.clone(),
+            },
+            2 => Sel::SweepCap,
+            _ => Sel::SweepReads {
+                kinds: vec![ErrKind::Other],
+                afters: all_afters.clone(),
+            },
+        };
+        let (bytes, map) = to_utf16(text, be);
+        let spans = if text.contains("---") {
+            // three documents separated by `---` lines
+            let mut v = Vec::new();
+            let mut start = 0usize;
+            for part in text.split("---\n") {
+                v.push((map(start), map(start + content_len(part))));
+                start += part.len() + 4;
+            }
+            v
+        } else {
+            vec![(map(0), map(content_len(text)))]
+        };
+        return Case::C10R(ReaderCase {
+            doc: Doc(bytes),
+            doc_spans: spans,
+            target: Target::Json,
+            entry,
+            opts: OptVec::default(),
+            chunking: [Chunking::Fixed(1), Chunking::Whole, Chunking::Fixed(3), Chunking::Fixed(2)][w % 4].clone(),
             sel,
         });
     }
@@ -1577,6 +1692,23 @@ pub fn gen_case(plan: &Plan, tier: Tier, seed: u64, idx: u64) -> Case {
                 frag: Doc::from_str(f),
                 cap: *cap,
             },
+        });
+    }
+    // one generated case in ten arrives as UTF-16 (byte-order mark + transcoding decoder)
+    // (a text that itself starts with U+FEFF would carry two marks: which of them are content is C09's
+    // business, F08)
+    if !systematic && rng.chance(1, 10) && !doc.starts_with('\u{feff}') {
+        let (b16, map) = to_utf16(&doc, rng.chance(1, 2));
+        let spans16: Vec<(usize, usize)> = spans.iter().map(|(a, b)| (map(*a), map(*b))).collect();
+        let chunking = wl::gen_chunking(&b16, &mut rng);
+        return Case::C10R(ReaderCase {
+            doc: Doc(b16),
+            doc_spans: spans16,
+            target,
+            entry,
+            opts,
+            chunking,
+            sel,
         });
     }
     Case::C10R(ReaderCase {
